@@ -46,6 +46,62 @@ type stopAt struct{ when time.Duration }
 
 var stopValue = &stopAt{}
 
+// realDelayNs evaluates the real scheduleRenewal for an arbitrary nanosecond lifetime.
+func realDelayNs(ns uint64) (time.Duration, bool) {
+	var got time.Duration
+	seen := false
+	uasc.VerifSetHook(func(name string, args ...interface{}) {
+		if name == "renew.schedule" && len(args) == 3 {
+			got, _ = args[2].(time.Duration)
+			seen = true
+			panic(stopValue)
+		}
+	})
+	defer uasc.VerifSetHook(nil)
+	uasc.VerifScheduleRenewal(time.Duration(ns), stopValue)
+	return got, seen
+}
+
+// floatStep compares the IEEE-754 model of `int64(float64(x)*0.75)` (Lean: SendFloat.f64mul075) with the real
+// expression for nanosecond lifetimes that are NOT whole milliseconds: below 2^53/3 ns the result is ⌊0.75x⌋,
+// above it rounding to 53 bits shows (⌊0.75x⌋ or one more).
+func (e *env) floatStep() {
+	rnd := h.NewRand(e.o.Seed + 77)
+	var xs []uint64
+	const edge = 3002399751580330 // 2^53/3
+	for d := uint64(0); d < 24; d++ {
+		xs = append(xs, edge-8+d)
+	}
+	for i := 0; i < e.o.N(3000, 300000); i++ {
+		switch i % 3 {
+		case 0:
+			xs = append(xs, rnd.U64()%4294967295000000)
+		case 1:
+			xs = append(xs, edge+rnd.U64()%(4294967295000000-edge))
+		default:
+			xs = append(xs, rnd.U64()%(1<<40))
+		}
+	}
+	for _, x := range xs {
+		when, ok := realDelayNs(x)
+		if !ok {
+			e.r.InfraError = "scheduleRenewal did not reach its verifPoint"
+			return
+		}
+		c := fmt.Sprintf("f64 %d", x)
+		e.r.Count(c, true)
+		e.r.Compare(e.d, c, fmt.Sprint(int64(when)))
+		switch uint64(when) {
+		case 3 * x / 4:
+			e.r.Hit("f64:floor")
+		case 3*x/4 + 1:
+			e.r.Hit("f64:floor-plus-one")
+		default:
+			e.r.Fail(c, "", fmt.Sprintf("int64(float64(%d)*0.75) = %d is neither ⌊0.75x⌋ nor ⌊0.75x⌋+1", x, int64(when)))
+		}
+	}
+}
+
 func realDelay(lifetimeMs uint64) (time.Duration, bool) {
 	var got time.Duration
 	seen := false
@@ -490,6 +546,156 @@ func (e *env) around(seed uint64, idx int) {
 	s.stop()
 }
 
+// aroundSecure: requests with real responses racing with renewals in Sign / SignAndEncrypt mode between a real
+// client channel and a real server channel (Basic256Sha256, committed keys). The server re-keys its one
+// instance on every renewal, so a request of a stale sender (C11 finding, outside the guard) is rejected there
+// and times out; inside the guard every request must complete.
+func (e *env) aroundSecure(seed uint64, idx int, mode ua.MessageSecurityMode) {
+	rnd := h.NewRand(seed*32452843 + uint64(idx))
+	name := fmt.Sprintf("around-renewal-secure %d %d mode=%d", seed, idx, mode)
+	a, err1 := h.LoadKey(e.o.Keys, 2048, "a")
+	b, err2 := h.LoadKey(e.o.Keys, 2048, "b")
+	if err1 != nil || err2 != nil {
+		e.r.Notes = append(e.r.Notes, fmt.Sprintf("%s: keys not available (%v %v)", name, err1, err2))
+		return
+	}
+	cli, srv, cleanup, err := h.SendLoopbackSize(65535)
+	if err != nil {
+		e.r.InfraError = "loopback: " + err.Error()
+		return
+	}
+	defer cleanup()
+	uri := ua.SecurityPolicyURIBasic256Sha256
+	ccfg := &uasc.Config{SecurityPolicyURI: uri, SecurityMode: mode, Certificate: a.CertDER, LocalKey: a.Key,
+		RemoteCertificate: b.CertDER, Thumbprint: uapolicy.Thumbprint(b.CertDER), Lifetime: 3600000, RequestTimeout: 30 * time.Second, RequestIDSeed: 100}
+	scfg := &uasc.Config{SecurityPolicyURI: uri, SecurityMode: mode, Certificate: b.CertDER, LocalKey: b.Key,
+		RemoteCertificate: a.CertDER, Thumbprint: uapolicy.Thumbprint(a.CertDER), Lifetime: 3600000, RequestTimeout: 30 * time.Second}
+	nC, nS := rnd.Bytes(32), rnd.Bytes(32)
+	base := uint32(rnd.Intn(1 << 20))
+	csc, err := uasc.VerifOpenChannel(cli, ccfg, false, chanID, initTok, base, nC, nS, make(chan error, 64))
+	if err != nil {
+		e.r.InfraError = name + ": client channel: " + err.Error()
+		return
+	}
+	ssc, err := uasc.VerifOpenServerChannel(srv, scfg, chanID, initTok, 5000, nS, nC, make(chan error, 64))
+	if err != nil {
+		e.r.InfraError = name + ": server channel: " + err.Error()
+		return
+	}
+	ctl := h.NewSendCtl()
+	uasc.VerifSetHook(ctl.Hook)
+	defer func() { uasc.VerifSetHook(nil); ctl.ReleaseAll() }()
+	csc.VerifStartDispatcher()
+	sctx, scancel := context.WithCancel(context.Background())
+	defer scancel()
+	var secFail atomic.Int64
+	var srvG atomic.Int64
+	go func() {
+		srvG.Store(h.GoID())
+		for {
+			msg := ssc.Receive(sctx)
+			if msg.Err != nil {
+				if strings.Contains(msg.Err.Error(), "SecurityChecksFailed") {
+					secFail.Add(1)
+					continue
+				}
+				return
+			}
+			if rr, ok := msg.Request().(*ua.ReadRequest); ok {
+				ssc.SendResponseWithContext(sctx, msg.RequestID, &ua.ReadResponse{ResponseHeader: h.RespHeader(rr.RequestHeader.RequestHandle, ua.StatusOK)})
+			}
+		}
+	}()
+	nSenders := 2 + rnd.Intn(3)
+	per := 2 + rnd.Intn(3)
+	nRenew := 1 + rnd.Intn(2)
+	var wg sync.WaitGroup
+	var failed atomic.Int64
+	var firstErr atomic.Value
+	var panicked atomic.Value
+	for k := 0; k < nSenders; k++ {
+		wg.Add(1)
+		go func(k int) {
+			defer wg.Done()
+			for i := 0; i < per; i++ {
+				err := csc.SendRequestWithTimeout(context.Background(), req(k*100+i), nil, 2*time.Second, func(v ua.Response) error {
+					if _, ok := v.(*ua.ReadResponse); !ok {
+						return fmt.Errorf("got %T", v)
+					}
+					return nil
+				})
+				if err != nil {
+					failed.Add(1)
+					firstErr.Store(fmt.Sprintf("request %d/%d: %v", k, i, err))
+				}
+			}
+		}(k)
+	}
+	wg.Add(1)
+	go func() {
+		defer wg.Done()
+		for i := 0; i < nRenew; i++ {
+			runtime.Gosched()
+			if err := renewRecover(csc, &panicked); err != nil && panicked.Load() == nil {
+				failed.Add(1)
+				firstErr.Store("renew: " + err.Error())
+			}
+		}
+	}()
+	done := make(chan struct{})
+	go func() { wg.Wait(); close(done) }()
+	select {
+	case <-done:
+	case <-time.After(90 * time.Second):
+		e.r.InfraError = name + ": calls did not return"
+		return
+	}
+	evs := ctl.Events()
+	uasc.VerifSetHook(nil)
+	cli.Close()
+	if panicked.Load() != nil {
+		e.r.Fail(name, sigPanic, fmt.Sprintf("Renew panicked: %v", panicked.Load()))
+		e.r.Hit("scenario:renew-panicked")
+		return
+	}
+	e.r.Hit(fmt.Sprintf("scenario:around-renewal-secure-mode-%d", mode))
+	// the server channel lives in the same process: leave its goroutine's events out of the client's trace
+	var cevs []h.SendEv
+	for _, ev := range evs {
+		if ev.G != srvG.Load() {
+			cevs = append(cevs, ev)
+		}
+	}
+	labels, _, _ := h.SeqLabels(cevs, csc.VerifReqLocker())
+	e.r.Count(name+" "+strings.Join(labels, ";"), true)
+	inGuard := true
+	if e.d != nil {
+		e.d.Ask(fmt.Sprintf("reset %d %d", base, initTok))
+		for i, l := range labels {
+			if l == "rLock" && e.d.Ask("guard rLock") != "in" {
+				inGuard = false
+			}
+			if a := e.d.Ask("lts " + l); a != "ok" {
+				e.r.Disagree(name, fmt.Sprintf("%s at step %d `%s` of %s", a, i, l, strings.Join(labels, ";")), "step taken by the implementation")
+				return
+			}
+		}
+		e.r.TracesValidated++
+		if ren := e.d.Ask("renewed"); ren == "-" || len(strings.Split(ren, ",")) != nRenew {
+			e.r.Disagree(name+" renewed", ren, fmt.Sprintf("%d renewals", nRenew))
+		}
+	}
+	switch {
+	case failed.Load() == 0 && secFail.Load() == 0:
+		e.r.Hit("secure:all-requests-completed")
+	case inGuard:
+		// oracle: requests issued around a renewal complete normally
+		e.r.Fail(name, "", fmt.Sprintf("inside the guard %d call(s) failed (%v), %d chunk(s) rejected by the server", failed.Load(), firstErr.Load(), secFail.Load()))
+	default:
+		e.r.Hit("secure:stale-sender-rejected-by-rekeyed-server")
+	}
+}
+
 // wgRace tries to make pendingReq.Add hit the window between the wake-up and the return of pendingReq.Wait.
 func (e *env) wgRace(attempts int) {
 	for a := 0; a < attempts; a++ {
@@ -823,7 +1029,7 @@ func main() {
 	}
 	defer d.Close()
 	e := &env{o, r, d}
-	r.Rule = "cases: (a) one per lifetime value: the real scheduleRenewal evaluated up to its verifPoint vs the Lean delay model (0…20000 ms contiguous, boundaries, 2000 random 32-bit values), oracle L/2 ≤ delay < L on the real value; one live channel whose 1000 ms token the library must renew between 500 and 1000 ms; (b) one per scenario: 2–5 senders with real responses racing with 1–2 renewals on a real client channel, trace replayed through the Lean LTS, renewals counted, all calls must complete; up to 25 attempts of a forced pendingReq.Add / pendingReq.Wait race; (c) corpus lines of the server re-key model. Every case is non-trivial; distinct by value / label sequence."
+	r.Rule = "cases: (a) one per lifetime value: the real scheduleRenewal evaluated up to its verifPoint vs the Lean delay model (0…20000 ms contiguous, boundaries, 2000 random 32-bit values), oracle L/2 ≤ delay < L on the real value; 3000 nanosecond lifetimes that are not whole milliseconds (around and above 2^53/3 ns) against the IEEE-754 model of the float64 step; one live channel whose 1000 ms token the library must renew between 500 and 1000 ms; (b) one per scenario: 2–5 senders with real responses racing with 1–2 renewals on a real client channel, trace replayed through the Lean LTS, renewals counted, all calls must complete; up to 25 attempts of a forced pendingReq.Add / pendingReq.Wait race; (c) corpus lines of the server re-key model. Every case is non-trivial; distinct by value / label sequence."
 	e.modelOnly()
 	if o.Replay != "" {
 		var seed uint64
@@ -851,6 +1057,9 @@ func main() {
 		return
 	}
 	e.delays()
+	if r.InfraError == "" {
+		e.floatStep()
+	}
 	t0 := time.Now()
 	n := o.N(60, 2000)
 	for i := 0; i < n && r.InfraError == ""; i++ {
@@ -859,6 +1068,14 @@ func main() {
 			r.Notes = append(r.Notes, fmt.Sprintf("stopped after %d scenarios (time budget)", i+1))
 			break
 		}
+	}
+	nSec := o.N(4, 100)
+	for i := 0; i < nSec && r.InfraError == ""; i++ {
+		mode := ua.MessageSecurityModeSign
+		if i%2 == 1 {
+			mode = ua.MessageSecurityModeSignAndEncrypt
+		}
+		e.aroundSecure(o.Seed, i, mode)
 	}
 	if r.InfraError == "" {
 		e.wgRace(o.N(120, 2000))
@@ -872,8 +1089,8 @@ func main() {
 	if r.InfraError == "" {
 		e.storm() // last: its renewal goroutines may outlive the scenario for a moment
 	}
-	for _, b := range []string{"delay:in-window", "scenario:live-1000ms", "live:renewed-in-window", "live:requests-survive-renewals-and-expiry", "scenario:around-renewal", "outcome:all-requests-completed",
-		"label:rLock", "label:rInstall", "label:write", "guard:inside", "guard:outside", "scenario:waitgroup-race"} {
+	for _, b := range []string{"delay:in-window", "f64:floor", "f64:floor-plus-one", "scenario:live-1000ms", "live:renewed-in-window", "live:requests-survive-renewals-and-expiry", "scenario:around-renewal", "outcome:all-requests-completed",
+		"scenario:around-renewal-secure-mode-2", "scenario:around-renewal-secure-mode-3", "label:rLock", "label:rInstall", "label:write", "guard:inside", "guard:outside", "scenario:waitgroup-race"} {
 		if r.Distribution[b] == 0 {
 			r.Unreached = append(r.Unreached, b)
 		}
